@@ -189,7 +189,33 @@ def gen_token_manager(repo, out):
     out.append('Definition gen_tm_events : list string := %s.' % strlist(sorted(set(events(srcs)))))
     out.append('Definition gen_tm_endpoints : list string := %s.' % strlist(sorted(set(re.findall(r'#\[endpoint\((\w+)\)\]', srcs)) | set(re.findall(r'#\[endpoint\]\s*fn (\w+)', srcs)))))
 
-EXTRA = [gen_vectors, gen_gateway, gen_token_manager]
+def endpoint_table(src):
+    """(endpoint name, payable annotation or "", only_owner) for each #[endpoint] / #[view] of a source text"""
+    out = []
+    for m in re.finditer(r'((?:\s*#\[[^\]]*\]\s*\n)+)\s*fn (\w+)', src):
+        attrs, fn = m.group(1), m.group(2)
+        ep = re.search(r'#\[(?:endpoint|view)(?:\((\w+)\))?\]', attrs)
+        if not ep:
+            continue
+        name = ep.group(1) or fn
+        pay = re.search(r'#\[payable\("([^"]*)"\)\]', attrs)
+        out.append((name, pay.group(1) if pay else '', 'only_owner' in attrs, 'view' in ep.group(0)))
+    return out
+
+def gen_gas_service(repo, out):
+    lib = read(repo, 'gas-service/src/lib.rs')
+    eps = [e for e in endpoint_table(lib) if not e[3]]
+    out.append('Definition gen_gas_endpoints : list (string * string) := [%s]%%string.' % '; '.join('("%s", "%s")' % (n, p) for n, p, _, _ in eps))
+    out.append('Definition gen_gas_events : list string := %s.' % strlist(events(read(repo, 'gas-service/src/events.rs'))))
+    out.append('Definition gen_gas_storage : list string := %s.' % strlist(storage_mappers(lib)))
+    ev = read(repo, 'gas-service/src/events.rs')
+    for st in ['GasPaidForContractCallData', 'NativeGasPaidForContractCallData', 'AddGasData', 'AddNativeGasData', 'RefundedData']:
+        body = need(re.search(r'pub struct %s<M: ManagedTypeApi> \{(.*?)\}' % st, ev, re.S), f'struct {st}').group(1)
+        out.append('Definition gen_gas_%s_fields : list string := %s.' % (st, strlist(re.findall(r'pub (\w+):', body))))
+    n = len(re.findall(r'require!\((?:gas_fee_amount|value) > 0, "Nothing received"\)', lib))
+    out.append('Definition gen_gas_nonzero_checks : N := %d.' % n)
+
+EXTRA = [gen_vectors, gen_gateway, gen_token_manager, gen_gas_service]
 
 if __name__ == '__main__':
     main()
